@@ -3,24 +3,36 @@ CHECK = {
     "harness": "h-c13",
     "translators": ["c13_consts"],
     "level": "proof",
-    "technique": "Lean 4 theorems over an abstract bilinear map + executable models (tower arithmetic, BN254 Miller loop "
-                 "and final exponentiation, textbook BLS12-381 ate pairing, discrete-log model of every pairing entry point) "
-                 "checked against the real code; pairing constants re-parsed from the sources and re-proved",
+    "technique": "Lean 4 theorems over an abstract bilinear map + ring-theoretic theorems about the Rust tower formulas (products, squares, "
+                 "inverses, sparse products, Frobenius maps as ring endomorphisms, Granger-Scott cyclotomic squaring) over arbitrary commutative "
+                 "rings + executable models (tower arithmetic, BN254 Miller loop and final exponentiation, textbook BLS12-381 ate pairing, "
+                 "discrete-log model of every pairing entry point incl. prepared points) checked against the real code; pairing constants "
+                 "re-parsed from the sources and re-proved (defining powers of the non-residue, the relations that make the Frobenius maps "
+                 "multiplicative, sixth-root-of-unity relations, non-residuosity)",
     "rule": "one evaluation = one request answered by both the real code and the Lean model (tower operation on one operand "
-            "tuple / one entry point on one list of pairs / one Miller loop, final exponentiation, Gt operation, DualMSM::check); "
-            "non-trivial when the operands are not all zero/one resp. the list is non-empty; distinctness by hash of the request line. "
+            "tuple / one entry point on one list of pairs / one Miller loop, final exponentiation, Gt operation, G2Prepared::from + is_identity, "
+            "DualMSM::check); non-trivial when the operands are not all zero/one resp. the list is non-empty; distinctness by hash of the request line. "
             "The bilinearity / non-degeneracy / product-law samples (kinds bilin-*, pp-*, nondeg) are TESTS of the hypothesis "
-            "fields of `Pairing`, not proofs",
+            "fields of `Pairing`, not proofs. The correspondence is by value (deliberately not by operation order): re-associations of the "
+            "tower formulas, `square()` written as `x*x`, `a - b` written as `a + (-b)` do not fire (confirmed with a benign patch)",
     "explanation": "Bilinearity and non-degeneracy of the Miller loop + final exponentiation are hypotheses (structure fields); "
-                   "proved for all inputs: consequences of bilinearity, multi_miller_loop = product of pairings for every list "
-                   "(identities, empty list, permutations, splits) for both engines' control flow, DualMSM::check <-> pairing equation, "
-                   "Gt scalar multiplication = exponentiation, Rust tower formulas = quotient-ring operations (commutative rings level "
-                   "by level), all parsed constants satisfy their defining equations. Models tied to the code by running both on "
-                   "the same requests.",
+                   "proved for all inputs: consequences of bilinearity; multi_miller_loop = product of pairings for every list "
+                   "(identities at any position skipped already at the level of Miller values, empty list, permutations, splits, prepared points: "
+                   "G2Prepared::from(identity) sets the flag the loop tests) for both engines' control flow, which coincide; the unprepared entry points "
+                   "reduce to the one-element loop; DualMSM::check <-> pairing equation; Gt scalar multiplication = exponentiation; the order-r subgroup is "
+                   "closed under the Gt operators and contains every final-exponentiation output; Rust tower formulas = quotient-ring operations "
+                   "(commutative rings level by level), frobenius_map(k) is a ring endomorphism level by level (table relations kernel-checked for k < 12 on "
+                   "the parsed tables), cyclotomic_square = square on the cyclotomic subgroup, quadratic invert is total away from 0; all parsed constants "
+                   "satisfy their defining equations. Models tied to the code by running both on the same requests, incl. lists of length 1..8 with an "
+                   "identity (G1, G2, two consecutive) at every position and Gt operators on Fp12 values outside the subgroup.",
     "trusted_base": [
         "blst (C/assembly): Fp/Fp2/Fp12 arithmetic, miller_loop, miller_loop_lines, precompute_lines, final_exp, pairing_* context are specified "
-        "(tower model, textbook ate pairing raised to 3(p^12-1)/r) and checked by correspondence only",
+        "(tower model, textbook ate pairing raised to 3(p^12-1)/r; hypotheses `hlines`, `hraw`, `hid` of the prepared/unprepared entry-point theorems) "
+        "and checked by correspondence only",
         "translator translators/c13_consts.py (python): prints the constants the sources contain; its Montgomery conversion is re-proved in Lean",
+        "the index moduli of the `TABLE[power % N]` sites of the frobenius_map functions are parsed by the translator and used by the model's "
+        "tables (a changed modulus breaks `frobenius_table_relations` and changes impl.txt lines of the `frob` requests); the shape of the "
+        "frobenius_map functions themselves (which coefficient is multiplied by which table) is hand-mirrored and compared by value",
     ],
     "assumptions": [
         "the optimal ate pairing (Miller function followed by the final exponentiation) is bilinear and non-degenerate on the "
@@ -28,16 +40,21 @@ CHECK = {
         "BN254: the joint Miller loop on lists without identity points reduces to the product of the pairings (hypothesis of "
         "multi_pairing_product_bn); its code is mirrored by the model (steps proved to be Jacobian doubling/addition with tangent/chord "
         "lines) and compared value by value with the real Fq12 results, and the reduced pairing with an independent textbook optimal ate pairing",
-        "cyclotomic_square = square on the cyclotomic subgroup: not proved (mirrored and compared; final_exponentiation is also compared "
-        "with the plain power f^((p^12-1)/r))",
-        "Frobenius maps are the p^k-power maps (the coefficient tables are proved to be the stated powers of the non-residue; "
-        "that this makes the map a field automorphism is not proved)",
+        "Frobenius maps: proved to be ring endomorphisms of every level (given the table relations, kernel-checked); that frobenius_map(1) is "
+        "the p-th power map x -> x^p is tested on every run (field-law oracles), not proved",
+        "cyclotomic_square = square is proved for elements with f^(p^4) f = f^(p^2); that the easy part of the final exponentiation produces such "
+        "elements uses Frobenius = power map (previous item) and f^(p^12-1) = 1",
+        "the theorems are stated over abstract commutative rings / fields; the executable instance (integers modulo p with canonical values) is "
+        "connected to them by the correspondence run and by kernel evaluation of the constant relations, not by a ring isomorphism proof",
+        "Gt has no byte encoding in this crate; `From<Fp12> for Gt` is a public unchecked constructor (no membership promise in its docs); every other "
+        "producer (pairing, final_exponentiation, Gt::random, generator) yields members of the order-r subgroup (tested; generator proved)",
     ],
-    "level_text": "Kernel-checked Lean theorems about the list-level pairing code (multi Miller loop of both engines, DualMSM::check, "
-                  "Gt operators) over an abstract bilinear map, about the Rust tower formulas over arbitrary commutative rings, and "
-                  "about every pairing constant parsed from the sources; executable models (incl. the complete BN254 Miller loop / "
+    "level_text": "Kernel-checked Lean theorems about the list-level pairing code (multi Miller loop of both engines incl. identity entries at any position, "
+                  "prepared points and unprepared entry points, DualMSM::check, Gt operators and the order-r subgroup) over an abstract bilinear map, about the "
+                  "Rust tower formulas over arbitrary commutative rings (products, squares, inverses, sparse products, Frobenius maps as ring endomorphisms, "
+                  "cyclotomic squaring), and about every pairing constant parsed from the sources; executable models (incl. the complete BN254 Miller loop / "
                   "final exponentiation and an independent textbook BLS12-381 pairing) compared with the real entry points on every run",
-    "level_note": "Partial by nature: bilinearity/non-degeneracy of the pairing are hypotheses, sampled by tests (labelled as such). "
-                  "Trusted: Lean kernel, the correspondence harness and driver, blst internals (specified, not verified)",
+    "level_note": "Partial by nature: bilinearity/non-degeneracy of the pairing are hypotheses, sampled by tests (labelled as such); Frobenius = p-power map "
+                  "is tested, not proved. Trusted: Lean kernel, the correspondence harness and driver, blst internals (specified, not verified)",
     "timeout": {"quick": 600, "thorough": 3000, "search": 900},
 }
